@@ -101,7 +101,12 @@ func genGatewayScenario(r *vlib.Rand, w *world) {
 		}
 		for n := 1 + r.Intn(3); k < n+1 && k < 4; k++ {
 			t := vlib.Pick(r, srvTemplates)
-			writeServer(&b, fmt.Sprintf("p%d-%s", k, strings.ToLower(t.proto)), vlib.Pick(r, t.ports), t, vlib.Pick(r, gwHostSets), r)
+			hs := vlib.Pick(r, gwHostSets)
+			if strings.Contains(hs[0], "/") {
+				w.features = append(w.features, "gw-ns-qualified-host")
+			}
+			w.features = append(w.features, "gw-server:"+t.proto+"/"+t.mode)
+			writeServer(&b, fmt.Sprintf("p%d-%s", k, strings.ToLower(t.proto)), vlib.Pick(r, t.ports), t, hs, r)
 		}
 		w.add(b.String(), "gw")
 	}
@@ -267,6 +272,12 @@ func genEnvoyFilterScenario(r *vlib.Rand, w *world) {
 			picks = append(picks, vlib.Pick(r, pool))
 		}
 		for _, p := range picks {
+			if strings.HasSuffix(p.label, "/ADD") {
+				// an object may be ADDed once per world (adding the same name twice is a user error, not a generator defect)
+				if w.hasFeature("ef:" + p.label) {
+					continue
+				}
+			}
 			b.WriteString(p.yaml)
 			w.features = append(w.features, "ef:"+p.label)
 		}
